@@ -34,6 +34,14 @@
      "chunk_noterm"   a generator body that is not streamed and yields nothing
                       but empty strings is announced as chunked and never
                       terminated
+     "listwish"       should_keep_alive compares the whole Connection header value
+                      with 'close' / 'keep-alive': an option inside a list
+                      (`Connection: close, foo`) is not recognised
+     "casewish"       the options are compared case-sensitively (`Close`, `KEEP-ALIVE`
+                      are not recognised)                          [seeded C15-6]
+     "tailappend"     Server._write re-queues the unsent rest of a partially
+                      accepted chunk at the tail of the connection's queue [C15-5]
+     "shortread"      file_generator takes a short read for end-of-file    [C15-4]
      "stream_sized"   response.stream = True with a non-empty str/bytes/list body
                       raises in _on_response and the error handling never ends
                       (intended: the body is the first data of a stream the
@@ -41,6 +49,12 @@
 EXTENDS HttpResponseOps, Naturals, FiniteSets, TLC
 
 CONSTANTS Protos, Methods, Conns, Statuses, Bodies, Flags,   \* the product of configurations
+          Spells,          \* spelling of the Connection wish: "canon" (close / keep-alive), "title" (Close /
+                           \* Keep-Alive), "upper", "list" (close, foo / keep-alive, foo); the wish itself (conn)
+                           \* is what the header means: options are case-insensitive, the header is a list
+          Wins,            \* what the transport accepts per send() while this response is written: 0 = all,
+                           \* 4000 = at most 4000 bytes, 1 = tiny accepts (1, 700, 65536, 3, ...)
+          SeqSpells,
           MaxReq,          \* requests per connection
           DefectChoices,   \* set of defect sets to explore
           SeqConns, SeqStatuses, SeqBodies   \* requests after the first (and their predecessors) are taken
@@ -56,13 +70,28 @@ VARIABLES dv,      \* defect set of this behaviour
 
 vars == <<dv, open, stale, k, P, bad, hist, out>>
 
-AllDefects == {"head_noclose", "bodiless_body", "push_cl", "empty_chunk", "chunk_noterm", "stream_sized"}
+AllDefects == {"head_noclose", "bodiless_body", "push_cl", "empty_chunk", "chunk_noterm", "stream_sized",
+               "listwish", "casewish", "tailappend", "shortread"}
 
-IterBodies == {"gen", "genWithEmpty", "genEmptyMid", "genAllEmpty", "file"}    \* response.body is an iterator
+IterBodies == {"gen", "genWithEmpty", "genEmptyMid", "genAllEmpty", "genBig", "file", "trickle"}    \* response.body is an iterator
 
-Cfgs == {c \in [proto: Protos, method: Methods, conn: Conns, status: Statuses, body: Bodies, stream: Flags] :
-           /\ c.body = "stream" => c.stream                   \* a pushed stream is response.stream = True by definition
-           /\ c.body = "error" => c.status \notin {200, 201}} \* httperror() is for error statuses
+SpellBodies == {"str", "gen"}          \* non-canonical spellings and partial accepts are combined with a
+WinBodies   == {"str", "big", "gen", "genWithEmpty", "genBig", "file", "trickle", "stream", "yield"}   \* sub-product
+
+(* the product: every (proto, method, conn, status, body, stream) with the canonical
+   spelling and a transport that accepts everything; the other spellings and the
+   partial accepts on the sub-products above *)
+Cfgs ==
+  LET core  == {c \in [proto: Protos, method: Methods, conn: Conns, status: Statuses, body: Bodies, stream: Flags,
+                       spell: {"canon"} \cap Spells, win: {0} \cap Wins] :
+                  /\ c.body = "stream" => c.stream                   \* a pushed stream is response.stream = True by definition
+                  /\ c.body = "error" => c.status \notin {200, 201}} \* httperror() is for error statuses
+      spelt == [proto: Protos, method: Methods, conn: Conns \ {"none"}, status: {200} \cap Statuses,
+                body: SpellBodies \cap Bodies, stream: {FALSE} \cap Flags, spell: Spells \ {"canon"}, win: {0} \cap Wins]
+      windw == {c \in [proto: Protos, method: Methods, conn: Conns, status: {200} \cap Statuses,
+                       body: WinBodies \cap Bodies, stream: Flags, spell: {"canon"} \cap Spells, win: Wins \ {0}] :
+                  c.body = "stream" => c.stream}
+  IN core \cup spelt \cup windw
 
 NoBodyStatus(s) == s < 200 \/ s \in {204, 304}
 
@@ -76,22 +105,38 @@ ExpLen(c) ==
     [] c.body = "big" -> 160000
     [] c.body = "gen" -> 30
     [] c.body \in {"genWithEmpty", "genEmptyMid"} -> 3
-    [] c.body = "file" -> 10240
+    [] c.body \in {"file", "trickle"} -> 10240
+    [] c.body = "genBig" -> 210000
     [] c.body = "stream" -> 37
     [] c.body = "yield" -> 13
     [] c.body = "error" -> IF NoBodyStatus(c.status) THEN 0 ELSE 500
 
-WantsKeepAlive(c) == c.conn = "keepalive" \/ (c.conn = "none" /\ c.proto = 11)   \* HttpParser.should_keep_alive
-IsStream(c)  == c.stream \/ c.body = "file"           \* Body.__set__ turns stream on for file objects
+(* HttpParser.should_keep_alive: the wish as the server understands it *)
+EffWish(c, Defects) ==
+  IF \/ (c.spell \in {"title", "upper"} /\ "casewish" \in Defects)
+     \/ (c.spell = "list" /\ "listwish" \in Defects)
+  THEN "none" ELSE c.conn
+WantsKeepAlive(c, Defects) == LET w == EffWish(c, Defects) IN w = "keepalive" \/ (w = "none" /\ c.proto = 11)
+IsStream(c)  == c.stream \/ c.body \in {"file", "trickle"}    \* Body.__set__ turns stream on for objects with read()
 IsIter(c)    == c.body \in IterBodies
 ListLen(c)   == IF c.body = "stream" THEN 0 ELSE ExpLen(c)     \* bytes in response.body when it is a list
 Pushed(c)    == IsStream(c) /\ ~IsIter(c) /\ ListLen(c) = 0    \* completed by stream(res, ..), stream(res, None)
+
+(* the non-empty pieces a streamed body is written in (harness/drivers/c15.py) *)
+Pieces(c) ==
+  CASE c.body = "gen" -> <<6, 6, 18>>
+    [] c.body \in {"genWithEmpty", "genEmptyMid"} -> <<1, 2>>
+    [] c.body = "genBig" -> <<70000, 70000, 70000>>
+    [] c.body = "file" -> <<4096, 4096, 2048>>
+    [] c.body = "trickle" -> <<1000, 1, 4096, 1, 37, 4096, 1009>>     \* read(4096) returns these: short reads
+    [] c.body = "stream" -> <<8, 9, 20>>
+    [] OTHER -> IF ExpLen(c) > 0 THEN <<ExpLen(c)>> ELSE <<>>
 
 (* Response.prepare(): [hascl, cl, chunked, close] *)
 Prepare(c, em, Defects) ==
   LET sized   == ~IsIter(c) /\ ("push_cl" \in Defects \/ ~IsStream(c))
       hascl   == sized /\ ("bodiless_body" \in Defects \/ c.status # 204)
-      close0  == ~WantsKeepAlive(c) \/ c.body = "error"
+      close0  == ~WantsKeepAlive(c, Defects) \/ c.body = "error"
       chunked == ~hascl /\ ~NoBodyStatus(c.status) /\ c.proto = 11 /\ em # "HEAD"
       close   == close0 \/ (~hascl /\ ~NoBodyStatus(c.status) /\ ~chunked)
   IN [hascl |-> hascl, cl |-> IF hascl THEN ListLen(c) ELSE -1, chunked |-> chunked, close |-> close]
@@ -128,14 +173,48 @@ Respond(c, em, Defects) ==
     [o |-> Outcome(c, p, "ok", 0, 1, p.close, n = 0), stale |-> FALSE]
   ELSE IF /\ "chunk_noterm" \in Defects /\ p.chunked /\ IsIter(c) /\ ~IsStream(c) /\ n = 0 THEN
     [o |-> Outcome(c, p, "incomplete", 0, 0, p.close, FALSE), stale |-> FALSE]
+  ELSE IF "shortread" \in Defects /\ c.body = "trickle" THEN     \* stops after the first short read
+    [o |-> Outcome(c, p, "ok", Pieces(c)[1], 0, p.close, FALSE), stale |-> FALSE]
   ELSE [o |-> Outcome(c, p, "ok", n, 0, p.close, TRUE), stale |-> FALSE]
 
-InSeq(c) == c.conn \in SeqConns /\ c.status \in SeqStatuses /\ c.body \in SeqBodies
-CfgOf(h) == [proto |-> h[1], method |-> h[2], conn |-> h[3], status |-> h[4], body |-> h[5], stream |-> h[6]]
+(* --- the write path (circuits.net.sockets.Server.write / _on_write / _write) ---
+   The response is a sequence of write events (headers, body pieces with their
+   chunk framing, chunk terminator) queued in the connection's deque; each
+   write-readiness hands the head to send(), which accepts at most Window
+   bytes; the rest goes back to the FRONT of the deque.  Delivered order =
+   written order whatever the window.  With "tailappend" the rest goes to the
+   TAIL: as soon as a write that is not the last one is accepted partially,
+   later writes overtake it.                                                 *)
+HdrLen == 150
+Window(w) == IF w = 0 THEN 1000000000 ELSE w        \* 1: the first send() accepts one byte
+WithFraming(s, chunked) == [i \in 1..Len(s) |-> IF chunked THEN s[i] + 8 ELSE s[i]]
+Writes(c, p, em) ==
+  LET n == ExpLen(c)
+      body == IF em = "HEAD" \/ NoBodyStatus(c.status) THEN <<>>
+              ELSE IF IsStream(c) THEN WithFraming(Pieces(c), p.chunked) \o (IF p.chunked THEN <<5>> ELSE <<>>)
+              ELSE (IF n > 0 THEN WithFraming(<<n>>, p.chunked) ELSE <<>>) \o (IF p.chunked THEN <<5>> ELSE <<>>)
+  IN <<HdrLen>> \o body
+Overtaken(c, p, em) == LET w == Writes(c, p, em) IN \E i \in 1..(Len(w) - 1) : w[i] > Window(c.win)
 
-XLine(i, c, o) ==
+(* what the peer receives: Respond, seen through the write path *)
+Deliver(c, em, Defects) ==
+  LET r == Respond(c, em, Defects)
+      p == Prepare(c, em, Defects)
+  IN IF "tailappend" \in Defects /\ r.o.parse = "ok" /\ Overtaken(c, p, em)
+     THEN IF HdrLen > Window(c.win)
+          THEN [o |-> Outcome(c, p, "nostatus", 0, 0, r.o.closed, FALSE), stale |-> r.stale]
+          ELSE [o |-> [r.o EXCEPT !.bodyeq = FALSE], stale |-> r.stale]
+     ELSE r
+
+InSeq(c) == c.conn \in SeqConns /\ c.status \in SeqStatuses /\ c.body \in SeqBodies /\ c.spell \in SeqSpells /\ c.win = 0
+CfgOf(h) == [proto |-> h[1], method |-> h[2], conn |-> h[3], status |-> h[4], body |-> h[5], stream |-> h[6],
+             spell |-> h[7], win |-> h[8]]
+Canon(c) == [c EXCEPT !.spell = "canon"]
+
+XLine(i, c, o, refclosed) ==
   [k |-> "x", i |-> i, proto |-> c.proto, method |-> c.method, conn |-> c.conn, status |-> c.status,
-   body |-> c.body, stream |-> c.stream, explen |-> ExpLen(c), nresp |-> 0,
+   body |-> c.body, stream |-> c.stream, spell |-> c.spell, win |-> c.win, refclosed |-> refclosed,
+   explen |-> ExpLen(c), nresp |-> 0,
    parse |-> o.parse, ostatus |-> o.ostatus, over |-> o.over, hascl |-> o.hascl, cl |-> o.cl,
    chunked |-> o.chunked, bodylen |-> o.bodylen, extra |-> o.extra, cclose |-> o.cclose, cka |-> o.cka,
    closed |-> o.closed, bodyeq |-> o.bodyeq]
@@ -151,12 +230,14 @@ Exchange(c) ==
   /\ open /\ k < MaxReq
   /\ IF k = 0 THEN TRUE ELSE InSeq(c) /\ InSeq(CfgOf(hist[1]))
   /\ LET em == IF stale THEN "HEAD" ELSE c.method
-         r  == Respond(c, em, dv)
-     IN /\ Emit(<<XLine(k + 1, c, r.o)>>)
+         r  == Deliver(c, em, dv)
+         rc == IF c.spell = "canon" THEN r.o.closed
+               ELSE Deliver(Canon(c), em, dv).o.closed   \* same request, wish spelled canonically
+     IN /\ Emit(<<XLine(k + 1, c, r.o, rc)>>)
         /\ open' = ~r.o.closed
         /\ stale' = r.stale
   /\ k' = k + 1
-  /\ hist' = Append(hist, <<c.proto, c.method, c.conn, c.status, c.body, c.stream>>)
+  /\ hist' = Append(hist, <<c.proto, c.method, c.conn, c.status, c.body, c.stream, c.spell, c.win>>)
   /\ UNCHANGED dv
 
 Next == \E c \in Cfgs : Exchange(c)
@@ -176,6 +257,7 @@ Conforms == bad = ""
 Framed == \A j \in 1..Len(out) :
             /\ out[j].parse = "ok" /\ Framing(out[j]) = ""
             /\ out[j].closed = AnnouncedClose(out[j])
+            /\ out[j].closed = out[j].refclosed /\ (out[j].conn = "close" => out[j].closed)
             /\ (Bodiless(out[j]) \/ out[j].bodyeq)
 KeepAliveUsable == \A j \in 1..Len(out) : \A h \in 1..(j - 1) : ~out[h].closed
 NoStalePair == dv = {} => ~stale
@@ -187,7 +269,10 @@ IFramed   == dv = {} => Framed
 
 (* the model has teeth: every single defect makes some configuration violate
    the monitor already as the first request of a connection *)
-Teeth == \A d \in AllDefects : \E c \in Cfgs : Allowed(XLine(1, c, Respond(c, c.method, {d}).o)) # ""
+FirstLine(c, D) == LET o == Deliver(c, c.method, D).o
+                   IN XLine(1, c, o, IF c.spell = "canon" THEN o.closed ELSE Deliver(Canon(c), c.method, D).o.closed)
+TeethClauses(d) == {Allowed(FirstLine(c, {d})) : c \in Cfgs} \ {""}
+Teeth == \A d \in AllDefects : LET tc == TeethClauses(d) IN PrintT(<<"TEETH", d, tc>>) /\ tc # {}
 ASSUME Teeth
 OpenIsNotClosed == out # <<>> => open = ~out[Len(out)].closed
 
